@@ -199,3 +199,4 @@ CHECKS["C20"]["packages"] = ["l2transport", "schedh", "l2node", "l3e2e"]
 CHECKS["C20"]["race_packages"] = ["schedh"]
 CHECKS["C07"]["race_packages"] = ["schedh"]
 CHECKS["C18"]["race_packages"] = ["schedh"]
+CHECKS["C14"]["packages"] = ["l2monitor", "schedh"]
